@@ -71,3 +71,40 @@ Example C01_statement_values_sample :
   query_values (fun _ => false) SQLite 1 c01_sample = [c01_iv 1; c01_iv 2; c01_uv 3; c01_uv 4] /\
   query_values (fun _ => false) MySQL 1 c01_sample = [c01_iv 1; c01_iv 2; c01_iv 2; c01_uv 3; c01_uv 4].
 Proof. repeat apply conj; reflexivity. Qed.
+
+(* The SQL TEXT as the engine reads it (Spec/EngTok.v: the statement lexer written from the engines' lexical rules,
+   quoted text included).  For EVERY script whose pieces do not fuse at their seams - the decidable premise
+   params_sep of Spec/EngScript.v, evaluated by the extracted model on every generated statement: each piece lexes
+   alone, no token is read across a seam (Spec/EngBoundary.v), text pieces contain no placeholder token - the engine's
+   token stream of the parameterised SQL contains exactly one placeholder token per returned value and no other:
+   positional marks on MySQL / SQLite, $1 .. $n in ascending order on Postgres.  Rests on the seam theorem
+   eng_tokens_app (Proofs/EngTokProofs.v): lexing is compositional wherever the last token of the left text may be
+   followed by the first character of the right text. *)
+Require Import SQV.Spec.EngLex SQV.Spec.EngTok SQV.Spec.EngBoundary SQV.Spec.EngScript SQV.Proofs.EngTokProofs
+  SQV.Proofs.EngScriptProofs.
+Theorem C01_engine_reads_the_placeholders :
+  forall (ftext : bool -> N -> str) b sc sql vals,
+  emit_params ftext b sc = Ok (sql, vals) -> params_sep ftext b sc = true ->
+  exists ts, eng_tokens b sql = Some ts /\
+             params_of ts = map (hole_no b) (map N.of_nat (seq 1 (length vals))).
+Proof. exact engine_reads_the_placeholders. Qed.
+Print Assumptions C01_engine_reads_the_placeholders.
+
+Theorem C01_lexing_is_compositional_at_safe_seams :
+  forall b s1 ts1 x tsx,
+  eng_tokens b s1 = Some ts1 -> eng_tokens b x = Some tsx -> join_ok ts1 x = true ->
+  eng_tokens b (s1 ++ x) = Some (ts1 ++ tsx).
+Proof. exact eng_tokens_app. Qed.
+Print Assumptions C01_lexing_is_compositional_at_safe_seams.
+
+(* not vacuous: a SELECT with an equality and an IN list, as a script *)
+From Coq Require Import String.
+Open Scope string_scope.
+Example C01_text_level_sample :
+  let sc := [WS (K "SELECT "); WId [97]; WS (K " FROM "); WId [116]; WS (K " WHERE "); WId [97]; WS (K " = ");
+             WVal (c01_iv 1); WS (K " AND "); WId [98]; WS (K " IN ("); WVal (c01_iv 2); WS (K ", "); WVal (c01_iv 3);
+             WS (K ")")] in
+  params_sep (fun _ _ => []) Postgres sc = true /\ params_sep (fun _ _ => []) MySQL sc = true /\
+  inline_sep (fun _ _ => []) SQLite sc = true.
+Proof. repeat apply conj; vm_compute; reflexivity. Qed.
+Close Scope string_scope.
